@@ -55,6 +55,7 @@ static int cn_asn1_type(int t) {
     case CN_T61: return V_ASN1_T61STRING;
     case CN_BMP: return V_ASN1_BMPSTRING;
     case CN_BIT: return V_ASN1_BIT_STRING;
+    case CN_BITRAW: return V_ASN1_UTF8STRING; // placeholder tag, rewritten to 0x03 in the TBS (retag_cn_as_bit_string)
     default: return V_ASN1_UTF8STRING;
     }
 }
@@ -183,6 +184,44 @@ static bool add_aki_with_issuer(X509 *ca, X509 *x, const std::string &cn) {
     return ok;
 }
 
+// ---- CN_BITRAW: libcrypto always prepends an unused-bits octet to a BIT STRING, so the commonName is first encoded as a UTF8String with the
+// wanted content octets; then the tag octet of that value is rewritten from 0x0c to 0x03 inside the DER TBSCertificate (lengths do not change), the TBS is
+// signed again and the Certificate SEQUENCE is assembled by hand.
+static void der_len(Bytes &o, size_t n) {
+    if (n < 0x80) { o.push_back((uint8_t) n); return; }
+    uint8_t b[8]; int k = 0; while (n) { b[k++] = (uint8_t) (n & 0xff); n >>= 8; }
+    o.push_back((uint8_t) (0x80 | k)); while (k) o.push_back(b[--k]);
+}
+static bool retag_cn_as_bit_string(X509 *x, X509_NAME *subj, const std::string &cn, EVP_PKEY *signkey, Bytes &out) {
+    unsigned char *tbs = nullptr, *nm = nullptr, *algp = nullptr;
+    EVP_MD_CTX *md = nullptr;
+    bool ok = false;
+    do {
+        int tl = i2d_re_X509_tbs(x, &tbs); if (tl <= 0) break;
+        int nl = i2d_X509_NAME(subj, &nm); if (nl <= 0) break;
+        Bytes pat = { 0x06, 0x03, 0x55, 0x04, 0x03, 0x0c }; der_len(pat, cn.size()); pat.insert(pat.end(), cn.begin(), cn.end());
+        // position of the commonName value inside the encoded subject Name (the last occurrence: OU precedes the CN)
+        int at = -1;
+        for (int i = 0; i + (int) pat.size() <= nl; i++) if (!memcmp(nm + i, pat.data(), pat.size())) at = i;
+        if (at < 0) break;
+        int hits = 0; // the subject Name occurs once in the TBS (twice when self-signed: issuer == subject)
+        for (int i = 0; i + nl <= tl; i++) if (!memcmp(tbs + i, nm, (size_t) nl)) { tbs[i + at + 5] = 0x03; hits++; i += nl - 1; }
+        if (hits < 1) break;
+        md = EVP_MD_CTX_new(); if (!md) break;
+        if (EVP_DigestSignInit(md, nullptr, EVP_sha256(), nullptr, signkey) != 1) break;
+        size_t sl = 0; if (EVP_DigestSign(md, nullptr, &sl, tbs, (size_t) tl) != 1) break;
+        Bytes sig(sl); if (EVP_DigestSign(md, sig.data(), &sl, tbs, (size_t) tl) != 1) break; sig.resize(sl);
+        const X509_ALGOR *alg = nullptr; X509_get0_signature(nullptr, &alg, x); if (!alg) break;
+        int al = i2d_X509_ALGOR((X509_ALGOR *) alg, &algp); if (al <= 0) break;
+        Bytes body(tbs, tbs + tl); body.insert(body.end(), algp, algp + al);
+        body.push_back(0x03); der_len(body, sig.size() + 1); body.push_back(0x00); body.insert(body.end(), sig.begin(), sig.end());
+        out.clear(); out.push_back(0x30); der_len(out, body.size()); out.insert(out.end(), body.begin(), body.end());
+        ok = true;
+    } while (0);
+    EVP_MD_CTX_free(md); OPENSSL_free(tbs); OPENSSL_free(nm); OPENSSL_free(algp);
+    return ok;
+}
+
 bool mint_leaf(const LeafSpec &sp, Bytes &out) {
     out.clear();
     Issuer &I = g_iss[sp.issuer & 1];
@@ -196,9 +235,10 @@ bool mint_leaf(const LeafSpec &sp, Bytes &out) {
         if (!x) break;
         if (!X509_set_version(x, 2)) break;
         ASN1_INTEGER_set_uint64(X509_get_serialNumber(x), sp.serial ? sp.serial : 1);
-        if (!X509_set_issuer_name(x, X509_get_subject_name(g_ca))) break;
-        if (!ASN1_TIME_set_string(X509_getm_notBefore(x), "20260101000000Z")) break;
-        if (!ASN1_TIME_set_string(X509_getm_notAfter(x), "20271231235959Z")) break;
+        static const char *NB[] = { "20260101000000Z", "20240101000000Z", "20280101000000Z" }, *NA[] = { "20271231235959Z", "20251231235959Z", "20291231235959Z" };
+        int val = sp.validity >= 0 && sp.validity <= 2 ? sp.validity : 0;
+        if (!ASN1_TIME_set_string(X509_getm_notBefore(x), NB[val])) break;
+        if (!ASN1_TIME_set_string(X509_getm_notAfter(x), NA[val])) break;
         subj = X509_NAME_new();
         if (!subj) break;
         if (!add_raw_attr(subj, NID_countryName, V_ASN1_PRINTABLESTRING, "FI")) break;
@@ -207,18 +247,22 @@ bool mint_leaf(const LeafSpec &sp, Bytes &out) {
         if (sp.has_cn && !add_raw_attr(subj, NID_commonName, cn_asn1_type(sp.cn_type), sp.cn)) break;
         if (sp.has_dn_email && !add_raw_attr(subj, NID_pkcs9_emailAddress, V_ASN1_IA5STRING, sp.dn_email)) break;
         if (!X509_set_subject_name(x, subj)) break;
+        if (!X509_set_issuer_name(x, sp.self_signed ? subj : X509_get_subject_name(g_ca))) break;
         if (!X509_set_pubkey(x, g_leafkey)) break;
         if (!add_ext(g_ca, x, NID_basic_constraints, "CA:FALSE")) break;
-        if (!add_ext(g_ca, x, NID_key_usage, "digitalSignature,keyEncipherment,keyAgreement")) break;
+        if (!add_ext(g_ca, x, NID_key_usage, sp.self_signed ? "digitalSignature,keyEncipherment,keyAgreement,keyCertSign" : "digitalSignature,keyEncipherment,keyAgreement")) break;
         if (!add_ext(g_ca, x, NID_ext_key_usage, "serverAuth")) break;
-        if (sp.aki_issuer) { if (!add_aki_with_issuer(g_ca, x, sp.aki_issuer_cn)) break; }
+        if (sp.self_signed) { /* no authorityKeyIdentifier: the certificate has no subjectKeyIdentifier to point to */ }
+        else if (sp.aki_issuer) { if (!add_aki_with_issuer(g_ca, x, sp.aki_issuer_cn)) break; }
         else if (!add_ext(g_ca, x, NID_authority_key_identifier, "keyid")) break;
         if (!sp.ian.empty() && sp.ian_before_san && !add_gns_ext(x, NID_issuer_alt_name, sp.ian, false)) break;
         if (!sp.san.empty() && !add_gns_ext(x, NID_subject_alt_name, sp.san, sp.san_critical)) break;
         if (!sp.ian.empty() && !sp.ian_before_san && !add_gns_ext(x, NID_issuer_alt_name, sp.ian, false)) break;
         if (!sp.crldp.empty() && !add_crldp_ext(x, sp.crldp)) break;
         if (!sp.aia.empty() && !add_aia_ext(x, sp.aia)) break;
-        if (!X509_sign(x, g_cakey, EVP_sha256())) break;
+        EVP_PKEY *signkey = sp.self_signed ? g_leafkey : g_cakey;
+        if (!X509_sign(x, signkey, EVP_sha256())) break;
+        if (sp.has_cn && sp.cn_type == CN_BITRAW) { ok = retag_cn_as_bit_string(x, subj, sp.cn, signkey, out); break; }
         int n = i2d_X509(x, &der);
         if (n <= 0) break;
         out.assign(der, der + n);
